@@ -113,6 +113,7 @@ type Node struct {
 	tipTS        uint64
 	subActive    bool // a SubscribeForTxs call has not been answered with a notification yet (one-shot model)
 	curWhat      string // API call in progress
+	watchNow     bool // the operator switched this running validator to watch-only (E2 event "watch")
 	earlierLife  bool // see Receive
 	foreignEarly bool // an unrequested transaction was handed over while no request was outstanding (E2 foreign_tx)
 	ledgerAhead  bool // the ledger got the block of the height under consensus from elsewhere; Reset not called yet
@@ -180,7 +181,7 @@ func (n *Node) build() {
 			}
 			return -1, nil, nil
 		}),
-		dbft.WithWatchOnly[H](func() bool { return n.kind == kWatchFlag }),
+		dbft.WithWatchOnly[H](func() bool { return n.kind == kWatchFlag || n.watchNow }),
 		dbft.WithCurrentHeight[H](func() uint32 { return n.height }),
 		dbft.WithCurrentBlockHash[H](func() H { return n.tip }),
 		dbft.WithGetValidators[H](func(...dbft.Transaction[H]) []dbft.PublicKey { return n.validators() }),
@@ -388,7 +389,7 @@ func (n *Node) onSign(b *Block) {
 	if n.trusted() && n.amevAt(n.d.BlockIndex) && m.preBlockOK == 0 {
 		n.w.violate("C07", "C07/block-signed-before-preblock", n, "Block.Sign called before a successful ProcessPreBlock")
 	}
-	if n.kind == kWatchFlag || n.kind == kOutside {
+	if n.kind == kWatchFlag || n.kind == kOutside || n.watchNow {
 		n.w.violate("C13", "C13/watch-only-signed-block", n, "watch-only node produced a block signature")
 	}
 }
@@ -417,7 +418,7 @@ func (n *Node) cbBroadcast(p dbft.ConsensusPayload[H]) {
 	n.outbox = append(n.outbox, pp)
 	n.callBroadcasts = append(n.callBroadcasts, pp)
 	n.w.hookBroadcast(n, pp)
-	if n.kind == kWatchFlag || n.kind == kOutside {
+	if n.kind == kWatchFlag || n.kind == kOutside || n.watchNow {
 		n.w.violate("C13", "C13/watch-only-broadcast/"+typeShort[pp.typ], n, "watch-only node broadcast "+pp.String())
 		return
 	}
